@@ -180,11 +180,16 @@ def run(tier):
     # the segmentation loop is regenerated from /repo (translate/gen_loops.py) and bridged to Spec.Layout.segmentation: the row routing theorem then
     # holds for the regenerated code (Bridge/LoopsPipe.lean)
     import loops2
+    import hdr
     l_info = loops2.regen('nitf')
-    broken = chk.prove(['SarpyModel.Props.C02', 'SarpyModel.Bridge.LoopsPipe', 'SarpyModel.Drivers'], 'SarpyModel.Props.C02', 'Sarpy.Props.C02', REQUIRED,
-                       {'loop_kernels': l_info},
+    # the step between layout and codecs - which pixel encoding the reader derives from the image subheaders the writer made - is regenerated
+    # from sicd.py / nitf.py (translate/gen_hdr.py) and bridged to Spec.Hdr (Bridge/Hdr.lean, Bridge/HdrSicd.lean); theorems Props/C02Hdr.lean
+    h_info = hdr.regen('sicd')
+    h_targets, h_extra = hdr.obligations('sicd')
+    broken = chk.prove(['SarpyModel.Props.C02', 'SarpyModel.Bridge.LoopsPipe', 'SarpyModel.Drivers'] + h_targets, 'SarpyModel.Props.C02', 'Sarpy.Props.C02', REQUIRED,
+                       {'loop_kernels': l_info, 'header_chains': h_info},
                        extra=[('SarpyModel.Bridge.LoopsPipe', 'Sarpy.Bridge.LP', ['gen_segmentation_split_join']),
-                              ('SarpyModel.Bridge.Loops', 'Sarpy.Bridge.L', ['gen_seg_cond', 'gen_seg_body', 'gen_default_image_segmentation'])])
+                              ('SarpyModel.Bridge.Loops', 'Sarpy.Bridge.L', ['gen_seg_cond', 'gen_seg_body', 'gen_default_image_segmentation', 'gen_construct_block_bounds'])] + h_extra)
     if [u for u in l_info['unsupported'] if u[0] == 'default_image_segmentation']:
         broken.append('translator could not express: ' + json.dumps(l_info['unsupported']))
     fails = []
@@ -195,17 +200,23 @@ def run(tier):
     try:
         for _ in range(30 if tier == 'quick' else 400):
             one_case(rng, tmpdir, tier, fails, stats, seen)
+        # header interpretation: real writer / reader vs regenerated chains vs reference model, and the direct oracle on real files
+        hdr.run_family('sicd', rng, tier, tmpdir, broken, fails, disagreements, stats, seen, h_info)
     finally:
         shutil.rmtree(tmpdir, ignore_errors=True)
         logging.disable(logging.NOTSET)
     # segmentation kernel: implementation vs regenerated Lean vs reference definition + direct tiling oracle
     nseg = loops2.run_kernels(rng, tier, ['seg'], fails, disagreements, stats, relax=('seg-limit',))
     chk.coverage.update({
-        'evaluations': stats.get('files', 0) + stats.get('histories', 0) + nseg,
+        'evaluations': stats.get('files', 0) + stats.get('histories', 0) + nseg + stats.get('hdr_model_cases', 0) + stats.get('hdr_files', 0),
         'distinct_nontrivial': len(seen),
         'rule': 'random image sizes (2..48 rows/cols plus > 2048 strips), pixel types RE32F_IM32F / RE16I_IM16I / AMP8I_PHS8I (random strictly increasing table), '
                 'row limits forcing 1..k segments; per case one whole-image write to a path plus 3 (quick) or 6 histories with random row-chunk partitions, '
-                'orders, flush placements and path / BytesIO / caller-file targets; distinct = (pixel type, segment-count class, large-dimension flag)',
+                'orders, flush placements and path / BytesIO / caller-file targets; distinct = (pixel type, segment-count class, large-dimension flag); '
+                'header interpretation (harness/hdr.py): every pixel type x segment sizes incl. 8192 / 8193 / > 8192 rows and columns and several segments on the real '
+                'writing-details, reader and writer classes; 250 (quick) stand-in headers outside the writer\'s table x metadata pixel types x AmpTable present / absent; '
+                'numpy.dtype for every kind, byte order and size 0..40; 15 (quick) real files parsed out of band, decoded with numpy alone and read back; 3 x 3 cross table '
+                'and relabelled files on the real reader',
         'samples': [fails[0]['case']] if fails else [{'rows': 17, 'cols': 9, 'pixel_type': 'RE16I_IM16I', 'row_limit': 5}],
         'stats': stats,
         'traces_validated_against_impl': stats.get('histories', 0),
@@ -216,7 +227,7 @@ def run(tier):
         'the protocol model (Spec.Pipeline) is tied to NITFWriter by comparing the real outputs of both protocols and of permuted/flush-interleaved histories byte for byte, not by a translator',
         'metadata equality is checked through to_dict after derive() on both sides, ignoring ImageCreation (documented stamp)',
         'AMP8I_PHS8I: only table-representable pixels are written (exactness expected); quantisation bounds are C08',
-    ]
+    ] + hdr.ASSUMPTIONS
     unknown = [f for f in fails if not (f.get('key') and chk.known(f['key']))]
     for f in unknown[:5]:
         chk.violation(f['msg'], {'case': f, 'replay_cmd': './check C02 --replay <this file>'}, True)
@@ -234,5 +245,8 @@ def replay(path):
     if isinstance(case.get('case'), dict) and 'kernel' in case['case']:
         import loops2
         return loops2.replay_case(case['case'])
+    if isinstance(case.get('case'), dict) and 'hdr' in case['case']:
+        import hdr
+        return hdr.replay_case(case['case']['hdr'])
     print(json.dumps(case)[:2000])
     return 1
